@@ -212,6 +212,9 @@ def ground(t):
 
 
 # ----------------------------------------------------------------------------- array / wsum expansion
+WS = z3.Function("wsum", z3.ArraySort(z3.IntSort(), z3.RealSort()), z3.ArraySort(z3.IntSort(), z3.RealSort()), z3.IntSort(), z3.RealSort())
+
+
 def expand_arrays(f):
     memo = {}
     MILLE = z3.RealVal(1000)
@@ -237,16 +240,22 @@ def expand_arrays(f):
                 return a.arg(0)
         return z3.Select(a, j)
 
-    def wsum(d, a, k):
+    def wsum(d, a, k, top=True):
         if z3.is_app(a):
             kk = a.decl().kind()
             if kk == z3.Z3_OP_STORE:
                 base, i, v = a.arg(0), a.arg(1), a.arg(2)
                 # lemma sum_update (proved by induction in the lemma library)
-                return wsum(d, base, k) + z3.If(z3.And(i >= 0, i < k), MILLE * sel(d, i) * (v - sel(base, i)), z3.RealVal(0))
+                return wsum(d, base, k, False) + z3.If(z3.And(i >= 0, i < k), MILLE * sel(d, i) * (v - sel(base, i)), z3.RealVal(0))
             if kk == z3.Z3_OP_ITE:
-                return z3.If(a.arg(0), wsum(d, a.arg(1), k), wsum(d, a.arg(2), k))
-        return None
+                return z3.If(a.arg(0), wsum(d, a.arg(1), k, False), wsum(d, a.arg(2), k, False))
+            if kk == z3.Z3_OP_CONST_ARRAY:
+                cv = a.arg(0)
+                if z3.is_rational_value(cv) and cv.numerator_as_long() == 0:
+                    return z3.RealVal(0)
+        if top:
+            return None
+        return WS(d, a, k)
 
     def fn(t, nch):
         if not z3.is_app(t):
@@ -480,18 +489,21 @@ def discharge_smt2(smt2, timeout_s=20, use_cvc5=True, both=False):
         res["time"] = time.time() - t0
         return res
     weakened = bool(stats.get("dropped_quantifiers")) or any(stats.get("ackermann", {}).get(k) for k in ("exp", "log", "pow", "wsum"))
-    # portfolio: nlsat-based QF_NRA strategy first (fast and stable on the Ackermann-expanded problems), then the default solver
-    try:
-        r, dt, model, why = check_formulas(fs, min(timeout_s, 10) * 1000, logic="QF_NRA")
-    except z3.Z3Exception as e:
-        r, dt, model, why = "unknown", 0.0, None, str(e)
-    res["attempts"].append(("stage1/z3-qfnra", r, round(dt, 3)))
-    if r != "unsat":
-        r0, model0 = r, model
-        r, dt, model, why = check_formulas(fs, timeout_s * 1000)
-        res["attempts"].append(("stage1/z3", r, round(dt, 3)))
-        if r == "unknown" and r0 == "sat":
-            r, model = r0, model0
+    # portfolio: nlsat-based QF_NRA strategy (fast and stable on pure real problems) with a short budget, then the default solver,
+    # then QF_NRA with the full budget
+    r, model = "unknown", None
+    for label, logic, budget in (("stage1/z3-qfnra", "QF_NRA", min(timeout_s, 2)), ("stage1/z3", None, timeout_s), ("stage1/z3-qfnra", "QF_NRA", timeout_s)):
+        try:
+            r1, dt, m1, why = check_formulas(fs, budget * 1000, logic=logic)
+        except z3.Z3Exception as e:
+            r1, dt, m1, why = "unknown", 0.0, None, str(e)
+        res["attempts"].append((label, r1, round(dt, 3)))
+        if r1 == "unsat":
+            r, model = r1, None
+            break
+        if r1 == "sat" and r != "sat":
+            r, model = r1, m1
+            break
     cand = None
     arrs = {}
     if r == "sat":
